@@ -16,6 +16,7 @@ RULE = ('every BaseException subclass found in builtins, constructed with repres
         'configurable classes raising in __new__, subclasses of configurable / registered classes, gin.singleton constructors, macros resolving to a raising '
         'reference; scopes entered outside, by the bodies between the levels (incl. clearing) and at the reference site; exceptions carrying notes, an implicit '
         '__context__, callable attributes, attributes served by __getattr__, nested values; the same instance raised through two calls. The expected data is a '
+        'User classes include one whose __getattr__ answers every name (None for absent fields). '
         'snapshot taken when the exception is created. distinct = (exception class, depth, raise site, modifiers)')
 TIERS = {
     'quick': {'workers': 8, 'cases': 1800, 'timeout': 600},
